@@ -73,6 +73,7 @@ def run(ctx):
     pool = cases if not ctx.quick else rng.sample(cases, 900)
     jobs = [(str(env.zdir), pool[i:i + 40]) for i in range(0, len(pool), 40)]
     exp = {json.dumps([c["txt"], c["files"]], sort_keys=True): sorted("".join(map(chr, z)) for z in c["exp"]) for c in pool}
+    asb = {json.dumps([c["txt"], c["files"]], sort_keys=True): sorted("".join(map(chr, z)) for z in c["asbuilt"]) for c in pool}
     bad = {}
     n = 0
     for part in par.pmap(_chunk, jobs, chunk=1):
@@ -95,7 +96,9 @@ def run(ctx):
                         if len([t for t in toks if not t.startswith("P")]) >= 2 or len([t for t in toks if t.startswith("P")]) >= 2:
                             return True
                     return False
-                cls = ("kinds-pooled" if pooled(rec.get("expanded")) else
+                # ... and it explains a wrong result only if the result is exactly what that deviation gives (SavedQ!SubstOrB)
+                as_built = asb[json.dumps([rec["txt"], rec["files"]], sort_keys=True)]
+                cls = ("kinds-pooled" if pooled(rec.get("expanded")) and rec["obs"] == as_built else
                        "alternatives-captured" if any(" | " in l for l in rec["files"].values()) else "other")
                 bad.setdefault(cls, []).append((rec, want))
     for cls, items in sorted(bad.items()):
